@@ -584,6 +584,25 @@ func (s *Server) handleNewConnection(ctx context.Context, rwc io.ReadWriteCloser
 		return nil
 	}
 
+	// An administrator may have edited the account since it was read above, at a moment when this session was not yet
+	// in the client list such an edit goes through: read it again now that it is.
+	// (Such an edit may also land between this look-up and the assignment and set the session itself, so look again
+	// until the session holds what the account manager holds.)
+	for i := 0; i < 8; i++ {
+		account := c.Server.AccountManager.Get(login)
+		if account == nil || account.Access == c.Account.Access {
+			break
+		}
+
+		c.Account = account
+
+		if c.Authorize(AccessDisconUser) {
+			c.Flags.Set(UserFlagAdmin, 1)
+		} else {
+			c.Flags.Set(UserFlagAdmin, 0)
+		}
+	}
+
 	s.outbox <- c.NewReply(&clientLogin,
 		NewField(FieldVersion, []byte{0x00, 0xbe}),
 		NewField(FieldCommunityBannerID, []byte{0, 0}),
